@@ -274,16 +274,11 @@ func (self *VM) SpawnAsync(
 		index++
 	}
 
-	// Invert arguments so that they match the order in which they would be pushed onto the stack.
-	argCIdx := len(invocation.Args) - 1
-	invertedArgs := make([]value.Value, argCIdx+1)
-	for idx := argCIdx; idx >= 0; idx-- {
-		invertedArgs[argCIdx-idx] = checkedArgs[idx]
-	}
+	// The arguments are pushed in the order of the parameters, just like a call expression does it.
 
 	return self.spawnCoreInternal(
 		invocation.Function,
-		invertedArgs,
+		checkedArgs,
 		debuggerOut,
 		debuggerResume,
 		invocation.LiteralName,
@@ -333,16 +328,11 @@ func (self *VM) SpawnSync(
 		index++
 	}
 
-	// Invert arguments so that they match the order in which they would be pushed onto the stack.
-	argCIdx := len(invocation.Args) - 1
-	invertedArgs := make([]value.Value, argCIdx+1)
-	for idx := argCIdx; idx >= 0; idx-- {
-		invertedArgs[argCIdx-idx] = checkedArgs[idx]
-	}
+	// The arguments are pushed in the order of the parameters, just like a call expression does it.
 
 	coreHandle := self.spawnCoreInternal(
 		invocation.Function,
-		invertedArgs,
+		checkedArgs,
 		debuggerOut,
 		debuggerResume,
 		invocation.LiteralName,
